@@ -274,8 +274,16 @@ func (c *Ctx) callMods(fn *ssa.Function, cc *ssa.CallCommon, m *ModSet) {
 		}
 		fname := fullName(callee)
 		readOnly := strings.HasPrefix(fname, "sync/atomic::Load")
+		// a callee with an explicit frame (modifies clause) that is flagged
+		// "defers-callbacks" never runs a function argument during the call
+		deferred := false
+		if sp := c.specOf(callee); sp != nil && sp.HasMod && sp.Flags["defers-callbacks"] != "" {
+			deferred = true
+		}
 		for _, a := range cc.Args {
-			c.funcArgMods(a, m)
+			if !deferred {
+				c.funcArgMods(a, m)
+			}
 			if readOnly {
 				continue
 			}
@@ -347,6 +355,9 @@ func (c *Ctx) modsOfDynamic(caller *ssa.Function, cc *ssa.CallCommon) *ModSet {
 			m.union(cm)
 		}
 		c.typeReachMods(cc.Value.Type(), m, map[types.Type]bool{}, 0)
+	} else if isContextCancel(cc.Value) {
+		c.note("assumed: a context.CancelFunc does not call back into the package under verification")
+		return m
 	} else {
 		// function value: candidates = anonymous functions and address-taken
 		// functions of the caller's package with an identical signature
